@@ -21,7 +21,7 @@ import (
 func init() {
 	Registry["C10"] = &Check{
 		Scenarios: c10Scenarios,
-		Rule: "on the server side another peer has completed its capabilities exchange with the same state machine on a connection of its own before every history; message flag bits P and T rotate with the position in the history; server side: every history of <=4 (thorough 5) peer messages over {acceptable CER, CER without common application, CER lacking Origin-Host and every application AVP, retransmitted CER, DWR, RAR (app 0), RAA, CCR (app 4), ACR (app 3)}; client side (sm.Client.NewConn): every history of <=4 (thorough 5) messages over {success CEA, failing CEA (result code rotating over 5010, 1001, 3004, 1, 4001, 5012), application-less CEA, a CER sent by the peer, DWR, RAR, RAA, CCA} sent in reply to the CER; application handlers registered by short name, by index and as catch-all (three configurations; names and the catch-all through HandleFunc in the one-segment histories and through Handle with a handler object in the others), each after attempts to register CER / CEA / DWR by name and by index; each history delivered in one segment and one segment per message; and histories (one shorter, with an unsolicited success CEA added to the alphabet) on an accepted connection served by a state machine that is also the handler of an sm.Client whose dial has completed. Plus scheduled scenarios (preemption bound 2, thorough 3): the peer never answers the CER and sends application requests half an interval before, exactly at and half an interval after the instant the client's handshake gives up. One deterministic schedule per history on the instrumented build (the quantifier is over histories; the scheduler supplies determinism and an exact notion of quiescence). Oracle: the sequence of application-handler invocations equals the gate model (invoked iff the handshake succeeded earlier on this connection), refused registrations never run, and the built-in CEA/DWA are still produced.",
+		Rule: "one state machine serves 300 sequential peers (CER, then RAR / STR / ACR for the by-name, by-index and catch-all handlers), with the optional HandshakeNotify channel never read and drained; on the server side another peer has completed its capabilities exchange with the same state machine on a connection of its own before every history; message flag bits P and T rotate with the position in the history; server side: every history of <=4 (thorough 5) peer messages over {acceptable CER, CER without common application, CER lacking Origin-Host and every application AVP, retransmitted CER, DWR, RAR (app 0), RAA, CCR (app 4), ACR (app 3)}; client side (sm.Client.NewConn): every history of <=4 (thorough 5) messages over {success CEA, failing CEA (result code rotating over 5010, 1001, 3004, 1, 4001, 5012), application-less CEA, a CER sent by the peer, DWR, RAR, RAA, CCA} sent in reply to the CER; application handlers registered by short name, by index and as catch-all (three configurations; names and the catch-all through HandleFunc in the one-segment histories and through Handle with a handler object in the others), each after attempts to register CER / CEA / DWR by name and by index; each history delivered in one segment and one segment per message; and histories (one shorter, with an unsolicited success CEA added to the alphabet) on an accepted connection served by a state machine that is also the handler of an sm.Client whose dial has completed. Plus scheduled scenarios (preemption bound 2, thorough 3): the peer never answers the CER and sends application requests half an interval before, exactly at and half an interval after the instant the client's handshake gives up. One deterministic schedule per history on the instrumented build (the quantifier is over histories; the scheduler supplies determinism and an exact notion of quiescence). Oracle: the sequence of application-handler invocations equals the gate model (invoked iff the handshake succeeded earlier on this connection), refused registrations never run, and the built-in CEA/DWA are still produced.",
 		Assume: []string{"single default schedule per history", "reference gate model {handshake done, closed}"},
 		QuickBudget: 120, ThoroughBudget: 1800,
 	}
@@ -191,6 +191,10 @@ func c10Scenarios(tier string) []*Scenario {
 		for _, at := range []time.Duration{time.Second / 2, time.Second, 3 * time.Second / 2} {
 			out = append(out, c10TimeoutTie(cfg, at, tb))
 		}
+	}
+	for _, drain := range []bool{false, true} {
+		drain := drain
+		out = append(out, &Scenario{Name: fmt.Sprintf("server/many-sequential-peers/handshake-notify-read=%v", drain), Seq: func(r *SeqResult) { c10ManyPeers(r, drain) }})
 	}
 	for _, cfg := range []string{"name", "index", "all"} {
 		for _, oneSeg := range []bool{true, false} {
@@ -611,4 +615,95 @@ func c10TimeoutTie(cfg string, at time.Duration, bound int) *Scenario {
 	}
 	return &Scenario{Name: fmt.Sprintf("client-timeout-tie/%s/requests-at-%v", cfg, at), Body: body, Check: check, Bound: bound, Horizon: 4 * time.Second,
 		Outcome: func(s *vs.Sched) string { return fmt.Sprint(c10tie.invoked, c10tieDial.err) }}
+}
+
+// c10ManyPeers: ONE state machine serves 300 peers one after the other. Each completes a
+// successful CER / CEA exchange and then sends an RAR (handler registered by name), an STR (by
+// index) and an ACR of application 3 (catch-all): all three must run for every peer. Reading the
+// state machine's HandshakeNotify channel is optional: the application either never does, or
+// drains it.
+func c10ManyPeers(r *SeqResult, drain bool) {
+	const peers = 300
+	saved := vs.DefaultMaxSteps
+	vs.DefaultMaxSteps = 5000000
+	defer func() { vs.DefaultMaxSteps = saved }()
+	var verdict, stage string
+	served := 0
+	capped := false
+	s := vs.Run(nil, false, 0, false, func() {
+		settings := &sm.Settings{OriginHost: "srv", OriginRealm: "realm", VendorID: 13, ProductName: "prod",
+			HostIPAddresses: []datatype.Address{datatype.Address(net.ParseIP("10.0.0.1"))}}
+		mach := sm.New(settings)
+		var got []string
+		mach.HandleFunc("RAR", func(c diam.Conn, m *diam.Message) { got = append(got, "name") })
+		mach.HandleIdx(diam.CommandIndex{AppID: 0, Code: 275, Request: true}, diam.HandlerFunc(func(c diam.Conn, m *diam.Message) { got = append(got, "index") }))
+		mach.HandleFunc("ALL", func(c diam.Conn, m *diam.Message) {
+			got = append(got, "all")
+			m.Answer(2001).WriteTo(c) // the peer waits for this answer: everything before it has been dispatched
+		})
+		if drain {
+			vs.GoNamed("app-handshake-notify", true, func() {
+				for {
+					if _, ok := mach.HandshakeNotify().Recv2(); !ok {
+						return
+					}
+				}
+			})
+		}
+		base := []refcodec.Node{ident(264, "cli"), ident(296, "test")}
+		for i := 0; i < peers; i++ {
+			conn := vnet.NewConn(fmt.Sprintf("S%d", i))
+			conn.Pieces = 1
+			if _, err := diam.NewConn(conn, "peer", mach, dict.Default); err != nil {
+				verdict = err.Error()
+				return
+			}
+			p := &Peer{C: conn}
+			got = nil
+			conn.Deliver(refcodec.EncodeMessage(refcodec.Header{Version: 1, Flags: 0x80, Code: 257, HbH: uint32(i), E2E: 6}, []refcodec.Node{
+				ident(264, "cli"), ident(296, "test"), {Code: 257, Flags: 0x40, Payload: refcodec.Address(1, []byte{10, 0, 0, 9})},
+				u32avp(266, 13), {Code: 269, Payload: []byte("x")}, u32avp(258, 4)}))
+			stage = fmt.Sprintf("peer %d sent its CER", i+1)
+			cea := p.Next()
+			if cea == nil || cea.Find(268) == nil || be32(cea.Find(268).Payload) != 2001 {
+				verdict = fmt.Sprintf("peer %d of one state machine: the handshake did not complete", i+1)
+				return
+			}
+			conn.Deliver(refcodec.EncodeMessage(refcodec.Header{Version: 1, Flags: 0x80, Code: 258, HbH: 1, E2E: 1}, base))
+			conn.Deliver(refcodec.EncodeMessage(refcodec.Header{Version: 1, Flags: 0x80, Code: 275, HbH: 2, E2E: 2}, base))
+			conn.Deliver(refcodec.EncodeMessage(refcodec.Header{Version: 1, Flags: 0x80, Code: 271, App: 3, HbH: 3, E2E: 3}, base))
+			stage = fmt.Sprintf("peer %d completed a successful CER / CEA exchange and sent RAR, STR, ACR", i+1)
+			if a := p.Next(); a == nil || a.Hdr.Code != 271 {
+				verdict = fmt.Sprintf("peer %d completed a successful CER / CEA exchange, but its requests were not dispatched (handlers that ran: %v)", i+1, got)
+				return
+			}
+			if fmt.Sprint(got) != "[name index all]" {
+				verdict = fmt.Sprintf("peer %d completed a successful CER / CEA exchange; handlers that ran for RAR, STR, ACR: %v, expected [name index all]", i+1, got)
+				return
+			}
+			conn.PeerEOF()
+			served++
+		}
+	})
+	capped = s.Capped
+	panics := s.Panics()
+	blocked := s.BlockedLib()
+	s.Teardown()
+	r.Cases += peers
+	r.Distinct += peers
+	r.Sample = fmt.Sprintf("%d sequential peers on one state machine: CER, then RAR / STR / ACR for the by-name, by-index and catch-all handlers", peers)
+	if capped {
+		r.Capped++
+		return
+	}
+	if verdict == "" && served < peers {
+		verdict = stage + " - and was never served"
+	}
+	if verdict == "" && len(panics) > 0 {
+		verdict = "panic: " + panics[0]
+	}
+	if verdict != "" {
+		r.Violation = fmt.Sprintf("%s (HandshakeNotify read by the application: %v; library goroutines blocked at the end: %v)", verdict, drain, blocked)
+		r.Case = map[string]interface{}{"scenario": "many-peers", "drain": drain}
+	}
 }
